@@ -193,25 +193,27 @@ func scanFile(r io.Reader) (*machoMarkers, error) {
 	return f, nil
 }
 
-func (f *machoMarkers) PatchSignature(oldHeader []byte, sigSize int64) (newHeader, sigBuf []byte, sigStart int64, patch *binpatch.PatchSet, padding int64, err error) {
+// PatchSignature patches the header to make room for a signature of sigSize
+// bytes. It returns the position and size of the space reserved for the
+// signature and the amount of padding that precedes it. The caller adds the
+// patch holding the signature itself once the stream has been read, by
+// replacing sigLen bytes at codeSize with padding+reserved bytes.
+func (f *machoMarkers) PatchSignature(oldHeader []byte, sigSize int64) (newHeader []byte, sigStart, reserved int64, patch *binpatch.PatchSet, padding int64, err error) {
 	patch = binpatch.New()
 	newHeader = oldHeader
 	sigStart = f.sigStart
 	if f.sigLen >= sigSize {
 		// existing block is big enough, overwrite it
-		sigBuf = make([]byte, f.sigLen)
-		patch.Add(f.sigStart, f.sigLen, sigBuf)
+		reserved = f.sigLen
 		return
 	}
 	sigSize = align(sigSize, alignSegmentFile)
+	reserved = sigSize
 	if sigStart == 0 {
 		// place signature after the current end of __LINKEDIT
 		sigStart = align(f.codeSize, alignSegmentFile)
 	}
-	// allocate patch buffer for signature
 	padding = sigStart - f.codeSize
-	padded := make([]byte, padding+sigSize)
-	sigBuf = padded[padding:]
 	// make room for signature loadcmd if there isn't one already
 	newHeader, err = f.patchNcmd(newHeader, patch)
 	if err != nil {
@@ -221,8 +223,6 @@ func (f *machoMarkers) PatchSignature(oldHeader []byte, sigSize int64) (newHeade
 	f.patchLinkEdit(newHeader, patch, sigStart, sigSize)
 	// write signature loadcmd
 	f.patchLoadCmd(newHeader, patch, sigStart, sigSize)
-	// record patch now, buffer to be filled by caller
-	patch.Add(f.codeSize, f.sigLen, padded)
 	return
 }
 
